@@ -59,7 +59,14 @@ def handleSeq (args : List String) : Verdict :=
     let evs ← many pEv n
     let ops := evs.filterMap fun e => match e with | .op o out => some (o, out) | .level => none
     let model := run [] (ops.map (·.1))
-    let bad := (ops.zip model).zipIdx.find? fun (((_, out), m), _) => out != m
+    -- a read that asks for another kind than the one stored is not judged: HDF5 converts between the numeric kinds, and the property
+    -- speaks of names never written, not of names holding another kind
+    let opsOnly : List Op := ops.map (·.1)
+    let storeBefore : Nat → Store := fun i => (opsOnly.take i).foldl (fun (st : Store) (o : Op) => (step st o).1) []
+    let kindClash : Nat → Bool := fun i => match opsOnly[i]? with
+      | some (Op.read k kind) => (match (storeBefore i).find? (fun e => e.1 == k) with | some e => e.2.kind != kind | none => false)
+      | _ => false
+    let bad := (ops.zip model).zipIdx.find? fun (((_, out), m), i) => out != m && !kindClash i
     let kinds := ops.map fun (o, _) => match o with | .write _ _ ob => ob.kind | .read _ k => k
     let overwrites := (ops.zipIdx.filter fun ((o, _), i) => match o with
       | .write _ k _ => (ops.take i).any fun (o2, _) => match o2 with | .write _ k2 _ => k2 == k | _ => false
